@@ -40,17 +40,27 @@ type recPacer struct {
 	t0      time.Time
 	answers []answer
 	log     []consult
+	n       int
 }
 
 func (p *recPacer) Pace(elapsed time.Duration, hits uint64) (time.Duration, bool) {
 	p.mu.Lock()
 	defer p.mu.Unlock()
-	i := len(p.log)
+	i := p.n
+	p.n++
 	a := answer{0, true}
 	if i < len(p.answers) {
 		a = p.answers[i]
 	}
-	p.log = append(p.log, consult{Elapsed: int64(elapsed), Hits: hits, Wait: int64(a.wait), Stop: a.stop, RetAt: int64(time.Since(p.t0))})
+	// a loop that keeps consulting after the script has said stop is told stop again and again; the log is
+	// capped (the oracle needs only the first consultation after a stop) and from then on the answer comes
+	// with a positive wait, so that even a loop that mishandles (wait <= 0, stop) cannot spin for ever
+	if i > len(p.answers)+64 {
+		a = answer{time.Millisecond, true}
+	}
+	if len(p.log) < 4096 {
+		p.log = append(p.log, consult{Elapsed: int64(elapsed), Hits: hits, Wait: int64(a.wait), Stop: a.stop, RetAt: int64(time.Since(p.t0))})
+	}
 	return a.wait, a.stop
 }
 func (p *recPacer) Rate(time.Duration) float64 { return 0 }
@@ -91,7 +101,7 @@ func runCase(cs caseC04) (log []consult, entries []int64, nres int, closed bool)
 			atk.Stop()
 		}()
 	}
-	timeout := time.After(90 * time.Second) // only reached when the attack really does not end
+	timeout := time.After(30 * time.Second) // only reached when the attack really does not end
 	for {
 		select {
 		case _, ok := <-res:
@@ -197,6 +207,7 @@ func runC04(c *run.Ctx, s *kit.Summary) {
 	var wg sync.WaitGroup
 	var mu sync.Mutex
 	sem := make(chan struct{}, 6)
+	var hung int64
 	for i := 0; i < n; i++ {
 		cs := caseC04{Workers: uint64(r.Pick(5)), Max: uint64(1 + r.Pick(4)), Latency: r.PickI64([]int64{0, 0, 50000, 500000, 2000000})}
 		k := 1 + r.Pick(25)
@@ -239,7 +250,16 @@ func runC04(c *run.Ctx, s *kit.Summary) {
 		go func(i int, cs caseC04) {
 			defer wg.Done()
 			defer func() { <-sem }()
+			if atomic.LoadInt64(&hung) >= 2 { // two attacks did not end: do not wait for hundreds more
+				mu.Lock()
+				s.Skipped["cases skipped after two attacks that did not end"]++
+				mu.Unlock()
+				return
+			}
 			log, entries, nres, closed := runCase(cs)
+			if !closed {
+				atomic.AddInt64(&hung, 1)
+			}
 			mu.Lock()
 			defer mu.Unlock()
 			s.Case(fmt.Sprint(cs), len(log) >= 3)
@@ -258,7 +278,7 @@ func runC04(c *run.Ctx, s *kit.Summary) {
 				s.Violate(kit.Violation{Kind: kind, What: what, Input: cs, Expected: exp, Observed: obs})
 			}
 			if !closed {
-				viol("attack_does_not_end", "the results channel was not closed within 90s after the pacer script ended", "", "")
+				viol("attack_does_not_end", "the results channel was not closed within 30s after the pacer script ended (the script's last answer says stop)", "", "")
 				return
 			}
 			// (a) hits argument is 0,1,2,…  (b) elapsed non-decreasing  (c) never consulted after the deadline
